@@ -397,32 +397,47 @@ def showLog (log : List Call) : String :=
   " ".intercalate ((ClusterWire.sortByKey per).map (·.2))
 
 /-- run-length text of the write table -/
-def showTable (w : Nat → Option Conn) : String :=
-  let step (acc : List (Nat × Nat × Bytes)) (i : Nat) : List (Nat × Nat × Bytes) :=
-    match w i with
-    | none => acc
-    | some cc =>
-      match acc with
-      | (lo, hi, a) :: rest => if hi + 1 = i ∧ a = cc.addr then (lo, i, a) :: rest else (i, i, cc.addr) :: acc
-      | [] => [(i, i, cc.addr)]
-  let segs := ((List.range 16384).foldl step []).reverse
-  if segs.isEmpty then "empty" else
-  " ".intercalate (segs.map fun s => toString s.1 ++ "-" ++ toString s.2.1 ++ ":" ++ Hex.encode s.2.2)
+def insertNat (x : Nat) : List Nat → List Nat
+  | [] => [x]
+  | y :: ys => if x < y then x :: y :: ys else if x = y then y :: ys else y :: insertNat x ys
 
-def showRTable (r : Option (Nat → List Conn)) : String :=
-  match r with
+/-- sorted, duplicate-free break points below 16384 (always containing 0) -/
+def breakPoints (marks : List Nat) : List Nat :=
+  (marks.filter (· < 16384)).foldl (fun acc x => insertNat x acc) [0]
+
+/-- pieces `[p_k, p_{k+1})` of the table between consecutive break points, with the value at `p_k`.
+    (If the marks missed a change of the table the dump differs from the real one: fail-safe.) -/
+def pieces {α : Type} (f : Nat → α) : List Nat → List (Nat × Nat × α)
+  | [] => []
+  | [p] => [(p, 16383, f p)]
+  | p :: q :: rest => (p, q - 1, f p) :: pieces f (q :: rest)
+
+def mergePieces (key : α → String) : List (Nat × Nat × α) → List (Nat × Nat × String) → List (Nat × Nat × String)
+  | [], acc => acc.reverse
+  | (lo, hi, v) :: rest, acc =>
+    let k := key v
+    if k = "" then mergePieces key rest acc else
+    match acc with
+    | (alo, ahi, ak) :: arest =>
+      if ahi + 1 = lo ∧ ak = k then mergePieces key rest ((alo, hi, ak) :: arest)
+      else mergePieces key rest ((lo, hi, k) :: acc)
+    | [] => mergePieces key rest [(lo, hi, k)]
+
+def showSegs (segs : List (Nat × Nat × String)) : String :=
+  if segs.isEmpty then "empty" else
+  " ".intercalate (segs.map fun s => toString s.1 ++ "-" ++ toString s.2.1 ++ ":" ++ s.2.2)
+
+/-- run-length text of the write table -/
+def showTable (c : Client) : String :=
+  showSegs (mergePieces (fun (v : Option Conn) => match v with | some cc => Hex.encode cc.addr | none => "")
+    (pieces c.wslots (breakPoints c.marks)) [])
+
+def showRSlots (c : Client) (slots : List Nat) : String :=
+  match c.rslots with
   | none => "nil"
-  | some f =>
-    let key (i : Nat) : String := ",".intercalate ((f i).map fun c => Hex.encode c.addr)
-    let step (acc : List (Nat × Nat × String)) (i : Nat) : List (Nat × Nat × String) :=
-      let k := key i
-      if k = "" then acc else
-      match acc with
-      | (lo, hi, a) :: rest => if hi + 1 = i ∧ a = k then (lo, i, a) :: rest else (i, i, k) :: acc
-      | [] => [(i, i, k)]
-    let segs := ((List.range 16384).foldl step []).reverse
-    if segs.isEmpty then "empty" else
-    " ".intercalate (segs.map fun s => toString s.1 ++ "-" ++ toString s.2.1 ++ ":" ++ s.2.2)
+  | some f => " ".intercalate (slots.map fun i =>
+      let k := ",".intercalate ((f i).map fun c => Hex.encode c.addr)
+      if k = "" then "-" else k)
 
 def showConns (m : List (Bytes × Conn × Bool)) : String :=
   if m.isEmpty then "-" else
@@ -436,7 +451,8 @@ def showPending (p : Pending) : String :=
 def withScript (d : DS) (inj : List (Bytes × Nat × Reply)) : St :=
   { d.st with w := { script := inj } }
 
-def step (d : DS) (ws : List String) : DS × String :=
+def step (d : DS) (ws0 : List String) : DS × String :=
+  let ws := ws0.filter (· ≠ "")
   match ws with
   | "reset" :: rest =>
     match parseOpt rest with
@@ -459,8 +475,11 @@ def step (d : DS) (ws : List String) : DS × String :=
     | .ok c => ({ d with st := { d.st with c := c } }, "ok")
     | .fail e => (d, "err " ++ showReply e)
     | .panic => (d, "panic")
-  | ["table"] => (d, showTable d.st.c.wslots)
-  | ["rtable"] => (d, showRTable d.st.c.rslots)
+  | ["table"] => (d, showTable d.st.c)
+  | "rslots" :: rest =>
+    match rest.mapM String.toNat? with
+    | some slots => (d, showRSlots d.st.c slots)
+    | none => (d, "bad-op")
   | ["conns"] => (d, showConns d.st.c.conns)
   | "do" :: rest | "cache" :: rest =>
     let cache := ws.head? == some "cache"
@@ -497,6 +516,7 @@ def step (d : DS) (ws : List String) : DS × String :=
       | .nil_ => (d, "nil")
       | .panic => (d, "panic")
     | none => (d, "bad-op")
+  | "!trace" :: _ => (d, "ok")
   | _ => (d, "bad-op")
 
 end Rv.ClusterMulti.Wire
